@@ -46,7 +46,7 @@ CLAIMS["C09"] = {
     "design_ref": "DESIGN.md section 3 C09 (H09)",
     "note": "engine obeys the C12 contract (script engine stub, real add_to_path); position-dependent order parameter (kick modelled "
             "by a fresh value); floats as reals, int() as exact floor; end frames exactly on an interface accepted (convention clash "
-            "documented); one known finding (frame exactly on the cap) routed through known_findings.jsonl",
+            "documented)",
     "technique": TECH,
 }
 CLAIMS["C11"] = {
